@@ -298,7 +298,7 @@ class P:
                 if not self.sym(')'):
                     while True:
                         c, t, n = self.decl()
-                        params.append((t, n))
+                        params.append((t, n, True) if (c and not isinstance(t, tuple)) else (t, n))
                         if self.sym(','):
                             self.next()
                             continue
